@@ -18,11 +18,11 @@ What is proved, for ALL trees / token lists (no size bound):
   * literal codecs: unescape ∘ escape = id for ' " /, the single-quote scanner stops at the right quote unless
     the literal ends in a backslash; in that case the repaired StringNode.Format (02ebb2e) uses triple quotes;
   * counterexamples for the code BEFORE the repairs (found by the check on the real code, then fixed).
-Stated, not proved (kept visible): the character-level glue `lexer_reads_formatted_stmt`, the fuel bound
-`fuel_adequate_stmt`.
+Stated, not proved (kept visible): see the end of the file.
 -/
 import Kap.Proofs.C13Lit
 import Kap.Proofs.C13Image
+import Kap.Proofs.C13Mono
 
 namespace Kap.Props.C13
 open Kap.C13 Kap.C13.Gen
@@ -204,6 +204,23 @@ theorem parse_fmt_parse (f : Nat) (ts : List Tok) (e : Expr) (h : parseTokensF f
 example : (parseTokensF 20 [.id "a", .op .TokenPlus, .id "b", .op .TokenMult, .id "c"]).isOkOf
     (.bin .TokenPlus (.id "a") (.bin .TokenMult (.id "b") (.id "c") false) false) = true := by decide
 
+/-! ## Fuel -/
+
+/-- the fixed fuel of `parseTokens` (2·tokens + 4) always suffices: the model parser is total -/
+theorem fuel_adequate : ∀ (ts : List Tok) (w : String), parseTokens ts ≠ .na w := parseTokens_ne_na
+
+/-- HEADLINE without any fuel quantifier: for EVERY tree, `ParseLambda` of the formatted tokens is the tree
+with the needed Parens flags – equal to the input up to Parens flags. -/
+theorem parse_format (e : Expr) : parseTokens (fmtToks e) = .ok (canonize e) ∧ erase (canonize e) = erase e := by
+  obtain ⟨h1, h2, h3⟩ := format_is_canonical_print e
+  refine ⟨parseTokens_of_eventually _ _ ?_, h3⟩
+  rw [h1]; exact parseLambda_fmt_canonical _ h2
+
+/-- … and for every token list the parser accepts, format-then-parse is the identity on the result -/
+theorem parse_format_parse (ts : List Tok) (e : Expr) (h : parseTokens ts = .ok e) :
+    parseTokens (fmtToks e) = .ok e :=
+  parseTokens_of_eventually _ _ (parse_fmt_parse _ ts e h).1
+
 /-! ## Stated, not proved -/
 
 /-- character level glue: the lexer + token decoder read the formatted TEXT back as the formatted TOKENS
@@ -211,8 +228,5 @@ example : (parseTokensF 20 [.id "a", .op .TokenPlus, .id "b", .op .TokenMult, .i
 def lexer_reads_formatted_stmt : Prop :=
   ∀ e : Expr, ∀ s, fmtStr e = .ok s → (∀ w, parseLambda s ≠ .na w) →
     (lex s.toList).bind decodeAll = .ok (fmtToks (canonize e))
-
-/-- the fixed fuel of `parseTokens` (2·tokens + 4) always suffices -/
-def fuel_adequate_stmt : Prop := ∀ ts : List Tok, ∀ w, parseTokens ts ≠ .na w
 
 end Kap.Props.C13
